@@ -105,7 +105,7 @@ func guessSpec(t *rapid.T) *hist.Spec {
 	kind := rapid.SampledFrom([]string{"integer", "float", "string", "boolean", "null", "any", "array", "object"}).Draw(t, "apKind")
 	sp := &hist.Spec{Kind: "schema"}
 	sp.Schema = lib.Spec{Schema: "{ // {additionalProperties: \"" + kind + "\"}\n  \"a\": 1\n}"}
-	toks := []string{"1", "-0", "0", "1e2", "1.5e1", "12E0", "-3e+1", "1e-2", "1.0", "1.50", "100e-2", "2.5", "1E400", "true", "false", "null", `"s"`, `"1"`, `""`, "[]", "{}", "[1]", `{"k":1}`}
+	toks := []string{"1", "-0", "0", "1e2", "1.5e1", "12E0", "-3e+1", "1e-2", "1.0", "1.50", "100e-2", "2.5", "1E400", "true", "false", "null", `"s"`, `"1"`, `""`, `"1.5"`, `"a.b"`, `"-0.0"`, "[]", "{}", "[1]", `{"k":1}`}
 	n := rapid.IntRange(3, 8).Draw(t, "ndocs")
 	for i := 0; i < n; i++ {
 		sp.Docs = append(sp.Docs, `{"a":1,"x":`+rapid.SampledFrom(toks).Draw(t, "tok")+`}`)
